@@ -1805,4 +1805,34 @@ example : TotalIO.candAt [⟨0, 1, 0, 0, 5, false, 0⟩, ⟨1, 2, 0, 0, 100, tru
     TotalIO.maxRow [⟨0, 1, 0, 0, 5, false, 0⟩, ⟨1, 2, 0, 0, 100, true, 7⟩] 2 = 1 := by
   refine ⟨by decide, by decide, by decide⟩
 
+open Partition Utf8Inv in
+/-- **`tokenize_total_bundled_plugins` — `tokenize_total` (`do_tokenize` never panics) with `hplug` and `hutf` discharged** for
+every configuration whose input-text plugins are bundled ones: `hplug` by `C03.pipe_plugins_never_panic`, `hutf` by the
+UTF-8 invariant (`bundled_stack_utf8`).  The remaining hypotheses are those of `C03.tokenize_total`, unchanged (see there:
+configuration facts, `hbound` = D7, `hrowsz`, `hrew`/`hkeep` of the path-rewrite stage). -/
+theorem tokenize_total_bundled_plugins (lv : LenV) (cfg : Cfg) (orig : List Nat)
+    (horig : ∃ cs, orig = TotalIO.encode cs)
+    (hbundled : ∀ p ∈ cfg.inputPlugins, Bundled p)
+    (rv : Variant) (bowFix : Bool) (tab : List (Nat × Nat))
+    (hmk : ∀ chars, mkBufV rv bowFix tab chars = some (cfg.mkBuf chars))
+    (hprov : cfg.providers ≠ [])
+    (hregex : ∀ p ∈ cfg.providers, ∀ c, p = .regex c → c.skipEmpty = true)
+    (hlexcost : ∀ w ∈ cfg.lex, I16 w.c)
+    (hprovcost : ∀ p ∈ cfg.providers, ProviderCostOk p)
+    (hconn : I16Conn cfg.conn)
+    (hbound : ∀ chars, Reaches lv cfg orig chars → chars.length ≤ 32767)
+    (hrowsz : ∀ chars nodes, Reaches lv cfg orig chars → buildLattice cfg.providers cfg.lex (cfg.mkBuf chars) = .ok nodes →
+      ∀ e, (nodes.map toVit).countP (fun n => n.e == e) ≤ 65535)
+    (hrew : ∀ path, NoPanic (cfg.rewrite path))
+    (hkeep : ∀ (nb : Nat) path path', (∀ q ∈ path, q.eb ≤ nb) → cfg.rewrite path = .ok path' →
+      ∀ p ∈ path', p.1.eb ≤ nb) :
+    NoPanic (tokenize .d6fix lv cfg orig) := by
+  refine tokenize_total lv cfg orig rv bowFix tab hmk hprov hregex hlexcost hprovcost hconn ?_ ?_ hbound hrowsz hrew hkeep
+  · intro p hp t
+    obtain ⟨a, S, c, rfl⟩ := hbundled p hp
+    exact pipe_plugins_never_panic a S c t
+  · intro l0 l a1 a2
+    obtain ⟨_, r2, _⟩ := bundled_reach lv orig horig cfg.inputPlugins hbundled l0 l a1 a2
+    exact enc_decodes l r2
+
 end C03
